@@ -82,4 +82,15 @@ def run(ctx):
             d = rc.compare(r, m)
             if d is None: res.traces_validated += 1
             else: res.disagreements.append({'point': 'c14.run', 'case': r.case, 'impl': d.get('impl'), 'model': d.get('model'), 'at': {k: d.get(k) for k in ('step', 'op')}})
+    # tie of the step order: the file-system operations the real write_head performed, in order, vs the model's four steps
+    seqs = {}
+    for r in runs:
+        for ev in getattr(r, 'head_events', []): seqs[tuple(ev)] = seqs.get(tuple(ev), 0) + 1
+    if ctx.driver and seqs:
+        steps = tuple(ctx.driver.one({'op': 'c14.steps'})['steps'])
+        for ev, cnt in seqs.items():
+            if ev != steps:
+                res.disagreements.append({'point': 'write_head file-system operation order vs OF.RollLog.headStepNames', 'case': None, 'impl': list(ev), 'model': list(steps), 'count': cnt})
+            else: res.traces_validated += cnt
+    dist['write_head_op_orders'] = {' '.join(k): v for k, v in seqs.items()}
     res.extra['input_distribution'] = dist
